@@ -286,7 +286,11 @@ def calls_part(run, scratch, cfg):
                             arows = out.to_dict()
                             ascore = out.info["align_params"]["sw_score"]
                         else:
-                            app = get_app("align_to_ref", ref_seq="s1", insertion_penalty=d, extension_penalty=e, **kwm)
+                            # the reference named, or left at its default ("longest": whichever it picks, the pair's
+                            # alignment must be optimal for the penalties GIVEN - the model is symmetric in the two rows)
+                            refkw = {"ref_seq": "s1"} if (ncalls % 2 == 0) else {}
+                            vtag += "" if refkw else ":reference-left-at-default"
+                            app = get_app("align_to_ref", insertion_penalty=d, extension_penalty=e, **refkw, **kwm)
                             out = app(coll)
                             arows = out.to_dict()
                             ascore = None
